@@ -98,6 +98,14 @@ class Check:
         tie_text: content of the tie file when it is assembled by the check (else coq/Tie/<tie_file>)"""
         from concurrent.futures import ThreadPoolExecutor
 
+        # glue fingerprints: functions / module skeletons outside every translator and extractor (tools_tie_coverage.py)
+        sys.path.insert(0, os.path.join(VERIF, "translators"))
+        import gen_glue
+
+        if self.pid in gen_glue.TARGETS:
+            gen_errors = list(gen_errors) + gen_glue.generate(REPO, os.path.join(self.dyn, "GenGlue.v"), self.pid)
+            gen_files = list(gen_files) + ["GenGlue.v"]
+            more_ties = list(more_ties) + [("TieGlue.v", gen_glue.tie_text(self.pid))]
         for e in gen_errors:
             self.obligations.append((f"translate:{e.split(':')[0]}", False, e))
         ok_all = True
